@@ -149,7 +149,8 @@ def gen_linearize(rng, tier):
     ikeys = sorted(n for n in f.args if g.decl[n][1] == 'int')
     if ikeys and rng.random() < .25:
         keys.append(ikeys[0])
-    pairs = [[k, g.new_arg(*g.decl[k])] for k in keys]
+    # the direction is a fresh argument, or (1 in 5) the linearised argument itself ('u:u': the derivative in the direction of the current value)
+    pairs = [[k, k if rng.random() < .2 else g.new_arg(*g.decl[k])] for k in keys]
     if rng.random() < .1:
         pairs.append([g.new_arg((2,), 'float'), g.new_arg((2,), 'float')])   # key that f does not have: ignored
     spelling = str(rng.choice(G.SPELLINGS_ALL))
@@ -397,6 +398,8 @@ def monitor_linearize(case, res):
         res.count('linearize/square-matrix-argument')
     if any(len(decl[k][0]) >= 3 for k, v in live):
         res.count('linearize/argument-ndim>=3')
+    if any(k == v for k, v in live):
+        res.count('linearize/direction-named-like-argument')
     listed, needed = set(arr.arguments), G.free(L)
     res.count('linearize/arguments-metadata/checked')
     if listed != needed:
